@@ -83,6 +83,8 @@ def run(ctx):
     structural.validate_first(ctx, "edgegraph.structure.twoendedlink.TwoEndedLink.__init__", "RAISE-FIRST")
     from rules import hist
     hist.run(ctx, res, 'C03')       # composition: histories through the public API against the reference model (rules/hist.py)
+    from rules import scale
+    scale.run(ctx, res, 'C03')      # the same on graphs whose collections have the sizes the tree names (rules/scale.py)
     hist.run_sequences(ctx, res, "C03", "links", 4 if ctx.thorough else 3)
     hist.run_sequences(ctx, res, "C03", "universes", 3, small=not ctx.thorough)
     common.vacuity(res, "SEQUENCE", 30000)
